@@ -68,3 +68,24 @@ Definition chk_views (P : chunked) (L : lcol) (V : views) : list bool :=
     wf_b P; lcol_eqb (abs P) L ].
 Definition chk_views_detail (P : chunked) (L : lcol) (V : views) : list bool :=
   model_views_detail P V ++ spec_views_detail L V ++ [wf_b P; lcol_eqb (abs P) L].
+
+(* ---------- generic column-valued operation (C05, C06, C19, C04) ---------- *)
+(* m: the model's result, sp: the spec's result, impl: what the real library returned (logical
+   read-back), P': the physical read-back of the real result when there is one *)
+Definition chk_col (P : chunked) (L : lcol) (m : res chunked) (sp : res lcol) (impl : res lcol)
+                   (P' : option chunked) : list bool :=
+  [ res_eqb lcol_eqb (res_map abs m) impl;
+    res_eqb lcol_eqb sp impl;
+    match P' with Some q => wf_b q | None => true end;
+    lcol_eqb (abs P) L && match P', impl with Some q, Ok l' => lcol_eqb (abs q) l' | _, _ => true end ].
+
+(* element-valued operation (boxed row, compared modulo NaN=null) *)
+Definition chk_row (P : chunked) (L : lcol) (m : res lrow) (sp : res lrow) (impl : res lrow) : list bool :=
+  [ res_eqb lrow_eqb (res_map denan_row m) impl;
+    res_eqb lrow_eqb (res_map denan_row sp) impl;
+    true;
+    lcol_eqb (abs P) L ].
+
+(* a value offered as rows, ragged or not: the physical validity of everything born *)
+Definition all_wf (ps : list chunked) : bool := forallb wf_b ps.
+Definition all_wf_rect (ps : list chunked) : bool := forallb wf_rect_b ps.
